@@ -50,7 +50,7 @@ def calls_for(F, tf_keys=()):
     """tf_keys: header words asked one by one through get_tracefield_values (an aggregate over all stored words would raise as
     soon as one array lies beyond the cut and hide a wrong answer for another)"""
     ni, nx, nz = F['n']
-    tf = [('tracefield1', [int(k)]) for k in tf_keys]
+    tf = [('tracefield1', [int(k)]) for k in tf_keys] + [('variant_headers', [])]      # (all stored arrays at once, on a real local file)
     if F['dim'] == 2:
         return [('get_trace', [0, N, N]), ('get_trace', [nx - 1, N, N]), ('read_subplane', [0, nx, 0, nz]), ('gen_trace_header', [0]),
                 ('gen_trace_header', [nx - 1]), ('meta', [])] + tf
@@ -73,9 +73,14 @@ def meta_of(r):
 def outcome(data, op, a, preload=False):
     """run one call on a file image; -> comparable outcome"""
     from seismic_zfp.read import SgzReader
+    tmp = None
+    if op == 'variant_headers':         # a path on disk: the reader's local-file code, not a file-like object
+        tmp = os.path.join(env.subdir(f'c18p-{os.getpid()}'), 'partial.sgz')
+        with open(tmp, 'wb') as f:
+            f.write(data)
     try:
         with env.quiet():
-            r = SgzReader(CountingFile(data, name='partial.sgz'), preload=preload)
+            r = SgzReader(tmp if tmp else CountingFile(data, name='partial.sgz'), preload=preload)
     except BaseException as e:
         if isinstance(e, (KeyboardInterrupt, SystemExit, MemoryError)):
             raise
@@ -88,6 +93,12 @@ def outcome(data, op, a, preload=False):
                 return ('value', [np.asarray(r.get_tracefield_values(k)).tolist() for k in r.stored_header_keys])
             if op == 'tracefield1':
                 return ('value', np.asarray(r.get_tracefield_values(a[0])).tolist())
+            if op == 'variant_headers':
+                try:
+                    r.read_variant_headers()
+                    return ('value', {int(k): np.asarray(v).tolist() for k, v in r.variant_headers.items()})
+                finally:
+                    r.close()
             out = readcalls.invoke(r, op, a)
     except BaseException as e:
         if isinstance(e, (KeyboardInterrupt, SystemExit, MemoryError)):
@@ -173,6 +184,21 @@ def run(run):
         for ci, (op, a) in enumerate(calls):
             if S['complete'][ci][0] == 'raise' and op != 'tracefield1':      # a word that is not stored has no array: KeyError
                 run.machinery(f'complete file raises for {op}{a} on {label}: {S["complete"][ci]}')
+        # the same conversion onto a path that already holds an older, longer file: a crash must not leave the old file's blocks readable
+        # behind the new header (the writer's open has to empty the path first)
+        hb = 8192
+        nb = (len(full) - hb) // 4096
+        decoy = full[:hb] + full[hb + 4096:hb + nb * 4096] + full[hb:hb + 4096] + full[hb + nb * 4096:] + bytes(8192) if nb >= 2 else full + bytes(8192)
+        with open(p, 'wb') as f:
+            f.write(decoy)
+        with wseam.recording(p) as rec2:
+            thunk(p)
+        if rec2.initial:
+            w2 = rec2.writes()
+            idx2 = sorted(set([1, 2, len(w2) // 2, max(1, len(w2) - 3)]))
+            for k2 in idx2:
+                if 0 < k2 < len(w2):
+                    S['partials'][('prefix-on-old-file', f'{k2}')] = wseam.apply_prefix(w2, k2, base=rec2.initial)
         S_all.append(S)
         run.traces_validated += 1
         run.extra.setdefault('write_sequences', {})[label] = [(w['h'], w['off'], w['len']) for w in writes][:40]
@@ -238,6 +264,14 @@ def replay(run, rep):
         if case['kind'] == 'prefix':
             parts = case['cut'].split('+')
             data = wseam.apply_prefix(writes, int(parts[0]), int(parts[1]) if len(parts) > 1 else None)
+        elif case['kind'] == 'prefix-on-old-file':
+            nb = (len(full) - 8192) // 4096
+            decoy = full[:8192] + full[8192 + 4096:8192 + nb * 4096] + full[8192:8192 + 4096] + full[8192 + nb * 4096:] + bytes(8192) if nb >= 2 else full + bytes(8192)
+            with open(p, 'wb') as f:
+                f.write(decoy)
+            with wseam.recording(p) as rec2:
+                thunk(p)
+            data = wseam.apply_prefix(rec2.writes(), int(case['cut']), base=rec2.initial or b'')
         else:
             data = full[:int(case['cut'])]
         got = outcome(data, case['op'], case['args'], preload=case['kind'] == 'trunc-preload')
